@@ -50,6 +50,12 @@ def gen_writes(rng, tier):
     d = ["up 3", "pub 2 k0 a0", "pub 3 k0 a1", "pub 1 k1 b0", "pub 2 k1 b1", "pub 3 k2 c0", "pub 3 k2 c1", "pub 2 k3 d0", "rm 3 k3",
          "pub 1 k3 d1", "pub 2 k4 e0", "pub 1 k4 e1", "settle 4000", "getall k0", "getall k1", "getall k2", "getall k3", "getall k4"]
     cases.append(Case("writes-every-node", d, True, "boundary"))
+    # directed (both tiers): the leader is killed and followers are written to before a new leader exists (those writes
+    # are refused or time out); after the election the survivors must agree, also on the keys of the refused writes
+    d2 = ["up 3", "pub 1 k0 v0", "pub 2 k1 w0", "settle 1500", "kill 1", "pub 2 k0 v1", "pub 3 k1 w1", "pub 2 k2 x1",
+          "settle 9000", "getall k0", "getall k1", "getall k2", "pub 2 k3 y0", "pub 3 k3 y1", "settle 3000", "getall k3",
+          "getall k0"]
+    cases.append(Case("writes-leader-killed", d2, True, "boundary"))
     if tier != "thorough":
         return cases
     for i in range(5):
